@@ -563,7 +563,7 @@ def _add_sibling_groups(draw, profile, feats, names):
             kids.append({"name": nm, "abstract": False, "ftype": profile.ftypes[0], "fcard": None, "attrs": [], "rels": []})
         kd = kind if same else draw(st.sampled_from(profile.group))
         lo, hi = GROUP_KINDS[kd](draw, k)
-        if same and bounds is not None and bounds[1] <= k and draw(st.booleans()):
+        if same and bounds is not None and bounds[0] <= k and bounds[1] <= k and draw(st.booleans()):
             lo, hi = bounds
         bounds = (lo, hi)
         new_rels.append({"min": lo, "max": hi, "children": kids})
